@@ -16,6 +16,7 @@ import (
 	"verif/lib/explore"
 	"verif/lib/loopworld"
 	"verif/lib/par"
+	"verif/lib/restartworld"
 	"verif/lib/world"
 	"verif/lib/xrun"
 )
@@ -33,9 +34,23 @@ func run(param json.RawMessage, ctx *explore.Ctx, viols *[]xrun.Viol) string {
 	return fmt.Sprintf("%s/stores=%d/loads=%d", res.Outcome, res.Stores, res.Loads)
 }
 
+// runRestart: an instance restarted on an emptied LMDB with its old snapshot still in the bucket; only the
+// publication oracle (c09:) is judged here (C05 judges the rest).
+func runRestart(param json.RawMessage, ctx *explore.Ctx, viols *[]xrun.Viol) string {
+	var cfg restartworld.Cfg
+	_ = json.Unmarshal(param, &cfg)
+	res := restartworld.Run(cfg, ctx)
+	for _, v := range res.Viols {
+		if strings.HasPrefix(v.Sig, "c09:") {
+			*viols = append(*viols, xrun.Viol{Sig: v.Sig, Msg: v.Msg})
+		}
+	}
+	return res.Outcome
+}
+
 func main() {
 	flag.Parse()
-	par.ServeIfWorker(map[string]par.Handler{"x": xrun.Handler(run)})
+	par.ServeIfWorker(map[string]par.Handler{"x": xrun.Handler(run), "restart": xrun.Handler(runRestart)})
 	if v, ok := ev.ReplayRequested(); ok {
 		xrun.Replay(v, run)
 		return
@@ -136,6 +151,15 @@ func main() {
 		// an instance started on an empty LMDB (no snapshot of its own): its first commits must be published too
 		parts = append(parts, part{"loop-" + name + "-fresh-instance", loopworld.Cfg{Native: native, EmptyStart: true, Remote2: true, MaxVisits: 1, AppOps: []string{"put-b", "newdbi"}}})
 	}
+	for _, native := range []bool{true, false} {
+		name := map[bool]string{true: "native", false: "shadow"}[native]
+		// the tomb sweeper is enabled; the application also writes a new key with an empty value
+		ops := []string{"put-b", "del-a"}
+		if native {
+			ops = append(ops, "put-empty-c") // (shadow mode loses live empty values anyway: known finding of C01/C11/C20)
+		}
+		parts = append(parts, part{"loop-" + name + "-sweeper-enabled", loopworld.Cfg{Native: native, Sweeper: true, Remote2: true, MaxVisits: 1, AppOps: ops}})
+	}
 	// cheapest parts first: each part may use an equal share of what is left, so the expensive ones get what the cheap ones save
 	{
 		var small, large []part
@@ -150,6 +174,13 @@ func main() {
 			return strings.Contains(small[i].name, "two-remotes") == false && strings.Contains(small[j].name, "two-remotes")
 		})
 		parts = append(small, large...)
+	}
+	for _, native := range []bool{true, false} {
+		name := "restart-on-emptied-lmdb-" + map[bool]string{true: "native", false: "shadow"}[native]
+		restore := r.SubBudget(ev.Pick(r, 40*time.Second, 5*time.Minute))
+		xrun.Explore(r, name, xrun.Opts{Kind: "restart", Bound: ev.Pick(r, 1, 2), Budget: 30, Recycle: 4,
+			Param: restartworld.Cfg{Native: native, StartEmpty: true, LongHistory: true, MaxLives: 1}})
+		restore()
 	}
 	for i, p := range parts {
 		restore := r.SubBudget(r.Remaining() / time.Duration(len(parts)-i))
